@@ -11,7 +11,7 @@ Local Open Scope nat_scope.
 Record otok := tk { t_id : nat; t_val : bytes; t_allow : bool; t_nl : bool }.
 
 Record case := mkCase {
-  c_id : nat;
+  c_id : N;
   c_lines : bool;          (* compare line structure too (false for trees with comments) *)
   c_tree : node;           (* parser.Parse(source), serialised by the harness *)
   c_toks : list otok       (* parser.LexToList(parser.PrettyPrint(tree)) without comments / EOF *)
@@ -53,5 +53,5 @@ Definition verdict (c : case) : nat :=
   else if otoks_eqb (c_lines c) (drop_commas (c_lines c) (flatten false true m))
                     (drop_commas (c_lines c) (c_toks c)) then 0 else 1.
 
-Definition check_all (cs : list case) : list (nat * nat) :=
+Definition check_all (cs : list case) : list (N * nat) :=
   filter (fun p => negb (Nat.eqb (snd p) 0)) (map (fun c => (c_id c, verdict c)) cs).
